@@ -91,12 +91,9 @@ var pool = []req{
 	// an abstract field twice under one response key, the later occurrence gated by a variable, other sub-selection
 	{q: `query($v: Boolean!) { i { x } i @include(if: $v) { ... on O { y } ... on P { z } } }`, vars: []map[string]interface{}{{"v": true}, {"v": false}}},                              // 45
 	{q: `query($v: Boolean!) { u { ... on O { x } } ...G @skip(if: $v) } fragment G on Query { u { ... on O { y } ... on P { z } } }`, vars: []map[string]interface{}{{"v": true}, {"v": false}}}, // 46
-	{q: `query($v: Boolean!, $w: Boolean!) { li { x } li @include(if: $v) { ... on O { y } } li @skip(if: $w) { ... on P { z } } }`, vars: []map[string]interface{}{{"v": true, "w": true}, {"v": false, "w": false}, {"v": true, "w": false}}}, // 47
 	// composite literals whose Go formatting coincides although the values differ
-	{q: `{ g(o: {k: "x l:y"}) j: g(o: {k: "x", l: "y"}) }`, vars: none}, // 48
-	{q: `{ h(ls: ["a b"]) j: h(ls: ["a", "b"]) }`, vars: none},         // 49
-	{q: `{ h(ls: ["a b"]) }`, vars: none},                               // 50 ...
-	{q: `{ h(ls: ["a", "b"]) }`, vars: none},                            // 51 ... as two requests
+	{q: `{ g(o: {k: "x l:y"}) j: g(o: {k: "x", l: "y"}) }`, vars: none}, // 47
+	{q: `{ h(ls: ["a b"]) j: h(ls: ["a", "b"]) }`, vars: none},         // 48
 }
 
 const corePool = 29
